@@ -778,8 +778,8 @@ class Emitter:
         raise Abort('cast kind ' + str(ck))
 
     @staticmethod
-    def int_literal(n):
-        """a non-zero integer literal behind value-preserving wrappers (casts, parentheses, substituted template arguments)"""
+    def int_literal(n, allow_zero=False):
+        """a (non-zero) integer literal behind value-preserving wrappers (casts, parentheses, substituted template arguments)"""
         while n.get('kind') in ('ImplicitCastExpr', 'ParenExpr', 'ConstantExpr', 'SubstNonTypeTemplateParmExpr', 'CStyleCastExpr',
                                 'CXXStaticCastExpr', 'CXXFunctionalCastExpr') and n.get('inner'):
             if n.get('castKind') not in (None, 'NoOp', 'IntegralCast', 'LValueToRValue'):
@@ -788,7 +788,7 @@ class Emitter:
         if n.get('kind') != 'IntegerLiteral':
             return False
         try:
-            return int(n.get('value', '0')) != 0
+            return allow_zero or int(n.get('value', '0')) != 0
         except ValueError:
             return False
 
@@ -814,6 +814,9 @@ class Emitter:
         if op == '*' and T == '__int128':
             self.cur['externs'].add('AVM_MUL')
             return 'AVM_MUL_i128(%s, %s)' % (self.E(a), self.E(b))
+        if op == '*' and T in DIVT and (self.int_literal(a, allow_zero=True) or self.int_literal(b, allow_zero=True)):
+            # a product with a compile-time constant (byte offsets such as 8 * N): always the C operator
+            return '(%s %s %s)' % (self.E(a), op, self.E(b))
         if op == '*' and T in DIVT:
             # integer multiplication through a macro (default: the C operator): lets a code-level proof treat the multiplier
             # as an uninterpreted, functionally consistent operation
@@ -846,7 +849,7 @@ class Emitter:
             self.cur['externs'].add('AVM_FOP')
             ea = self.E(a)
             return '(%s = (%s)AVM_%s_%s((%s)%s, (%s)%s))' % (ea, lt, {'*=': 'FMUL', '/=': 'FDIV', '+=': 'FADD', '-=': 'FSUB'}[op], 'f32' if crt == 'float' else 'f64', crt, ea, crt, self.E(b))
-        if op in ('/=', '%=') and (self.ctype(ct) if ct else lt) in DIVT:
+        if op in ('/=', '%=') and (self.ctype(ct) if ct else lt) in DIVT and not self.int_literal(b):
             crt = self.ctype(ct) if ct else lt
             self.cur['externs'].add('AVM_DIV')
             ea = self.E(a)
